@@ -31,8 +31,8 @@ func New(seed int64) *Gen {
 }
 
 func (g *Gen) pick(ss ...string) string { return ss[g.R.Intn(len(ss))] }
-func (g *Gen) chance(p float64) bool   { return g.R.Float64() < p }
-func (g *Gen) rng(lo, hi int) int      { return lo + g.R.Intn(hi-lo+1) }
+func (g *Gen) chance(p float64) bool    { return g.R.Float64() < p }
+func (g *Gen) rng(lo, hi int) int       { return lo + g.R.Intn(hi-lo+1) }
 
 func (g *Gen) Field() string {
 	return g.Fields[g.R.Intn(len(g.Fields))]
@@ -126,7 +126,7 @@ func (g *Gen) OID() string {
 }
 
 func (g *Gen) B64() string {
-	n := g.rng(1, 40)
+	n := g.rng(9, 40)
 	b := make([]byte, n)
 	g.R.Read(b)
 	b[0] |= 0x81
@@ -156,15 +156,17 @@ func (g *Gen) Number() string {
 	return base + fmt.Sprintf("%d", g.rng(10, 99))
 }
 
-func sens(n *Node, class, slot string) *Node { return n.With(&Tag{Role: Sens, Class: class, Slot: slot}) }
-func keep(n *Node) *Node                     { return n.With(&Tag{Role: Keep}) }
-func free(n *Node) *Node                     { return n.With(&Tag{Role: Free}) }
-func FreeS(s string) *Node                   { return free(StrN(s)) }
-func FreeI(i int) *Node                      { return free(IntN(i)) }
-func FreeB(b bool) *Node                     { return free(BoolN(b)) }
-func KeepS(s string) *Node                   { return keep(StrN(s)) }
-func KeepI(i int) *Node                      { return keep(IntN(i)) }
-func KeepN(raw string) *Node                 { return keep(NumN(raw)) }
+func sens(n *Node, class, slot string) *Node {
+	return n.With(&Tag{Role: Sens, Class: class, Slot: slot})
+}
+func keep(n *Node) *Node     { return n.With(&Tag{Role: Keep}) }
+func free(n *Node) *Node     { return n.With(&Tag{Role: Free}) }
+func FreeS(s string) *Node   { return free(StrN(s)) }
+func FreeI(i int) *Node      { return free(IntN(i)) }
+func FreeB(b bool) *Node     { return free(BoolN(b)) }
+func KeepS(s string) *Node   { return keep(StrN(s)) }
+func KeepI(i int) *Node      { return keep(IntN(i)) }
+func KeepN(raw string) *Node { return keep(NumN(raw)) }
 
 func (g *Gen) Ref() *Node {
 	f := g.Field()
@@ -667,14 +669,11 @@ func (g *Gen) groupID(d int) *Node {
 	return g.Lit("group-id")
 }
 
-// names of namespaces used by the current case (set by Case()).
-var curDB, curColl string
-
 func (g *Gen) nsColl() *Node {
-	return StrN(g.pick("other_coll", "lk_"+g.letters(4), "Orders")).With(&Tag{Role: NsColl})
+	return StrN(g.pick("other_coll", "lk_"+g.letters(4), "Orders")).With(&Tag{Role: NsColl, Slot: "stage"})
 }
 func (g *Gen) nsDB() *Node {
-	return StrN(g.pick("other_db", "db_"+g.letters(4))).With(&Tag{Role: NsDB})
+	return StrN(g.pick("other_db", "db_"+g.letters(4))).With(&Tag{Role: NsDB, Slot: "stage"})
 }
 
 func (g *Gen) mergeStage(d int) *Node {
